@@ -773,7 +773,7 @@ def stage_requests(ctx, bins, c11req, progs, refs, params, t, version, only=None
                           "every plugin invocation decodes the compiler's request (layer A head, in-process AST), "
                           "thriftgo exits 0 and the plugins' files are written",
                           "request seen by the plugin / honouring of an ok response: " + ", ".join(kinds))
-    if cases and only is None:
+    if cases and only is None and not ctx.violations and not ctx.known_hits:
         if not any(c.get("_trailer") for c in cases):
             raise vlib.MachineryError("no out-of-process case ran with include compression (trailer never seen)")
         if not any(c.get("_trailer") and c["shared"] for c in cases):
